@@ -28,8 +28,14 @@ def record(workdir, target_dir, log=lambda s: None, features=None):
                 "GRAPHRS_VERIF_TRACE": prefix, "CARGO_TARGET_DIR": target_dir, "CARGO_NET_OFFLINE": "true"})
     t0 = time.time()
     cmd = ["cargo", "test", "--offline", "--workspace", "--no-fail-fast"]
-    r = subprocess.run(cmd, cwd="/repo", env=env, capture_output=True, text=True)
-    out = r.stdout + r.stderr
+    try:
+        r = subprocess.run(cmd, cwd="/repo", env=env, capture_output=True, text=True, timeout=1800)
+        out = r.stdout + r.stderr
+    except subprocess.TimeoutExpired as e:
+        # a test that does not return: the records written so far are still validated
+        out = (e.stdout or b"").decode("utf8", "replace") + (e.stderr or b"").decode("utf8", "replace") if isinstance(e.stdout, bytes) else (e.stdout or "") + (e.stderr or "")
+        out += "\ntest result: timed out. 0 passed; 0 failed;"
+        log("the repository's test suite did not finish within 30 min; validating the records written so far")
     if "error: could not compile" in out or "test result:" not in out:
         raise RuntimeError("the repository's tests do not build with --cfg graphrs_verif:\n" + out[-3000:])
     passed = sum(int(l.split(" passed")[0].split()[-1]) for l in out.splitlines() if l.startswith("test result:"))
